@@ -220,6 +220,12 @@ theorem hz_batch_spec (b n : Nat) : effBs (some b) n = min b n := by
 theorem hz_torch_same (b n : Int) :
     Gen.hzBatchTorch b n = Gen.hzBatch b n ∧ Gen.hzCardTorch n b = Gen.hzCard n b := ⟨rfl, rfl⟩
 
+/-- the torch `DataLoader` branch (GENERATED): the loader's nominal batch size clamped to the size of the first batch
+    it yields - which is `min(batch_size, N)` - is again the effective batch size `min(batch_size, N)`, so a loader with
+    more room than cases is accepted like every other container -/
+theorem hz_loader_spec (b n : Int) : Gen.hzBatchLoader b (min b n) = Gen.hzBatch b n := by
+  simp only [Gen.hzBatchLoader, Gen.hzBatch]; omega
+
 private theorem lt_ceil_iff (a s i : Int) (hs : 0 < s) : i < -(Int.fdiv (-a) s) ↔ i * s < a := by
   rw [Int.fdiv_eq_ediv_of_nonneg _ (le_of_lt hs)]
   have h1 : i < -((-a) / s) ↔ (-a) / s < -i := by constructor <;> intro h <;> linarith
